@@ -468,6 +468,85 @@ pub fn run_c08(ctx: &Ctx) -> i32 {
             Err(p) => out.violation(format!("C08|header-constructor-panic|{}", p.site()), p.short(), rpj(ctx, "header", idx, desc)),
         }
     });
+    // (f) components only the PARSER can produce: residuals written by an independent bit writer
+    // (method 00 and 01 = 5-bit "RICE2" parameters up to 30, random partition orders / quotients),
+    // and frames with re-coded frame/sample numbers and flipped blocking-strategy bit
+    // (mon_d::craft_frame, CRCs recomputed). Whatever the parser accepts must report the bits it
+    // writes.
+    let nfor = ctx.tier.pick(6000, 200_000);
+    let bases = Arc::new(crate::mon_d::base_streams(ctx.seed, 8));
+    let bs = Arc::clone(&bases);
+    run_cases(ctx, "foreign", nfor, &mut out, |idx, out| {
+        let mut rng = Rng::for_case(ctx.seed, "C08.foreign", idx);
+        type BitErr<'a> = nom::error::Error<(&'a [u8], usize)>;
+        type ByteErr<'a> = nom::error::Error<&'a [u8]>;
+        if idx % 3 != 0 {
+            let order = rng.usize_below(5);
+            let parts = 1usize << order;
+            let plen = *rng.pick(&[4usize, 16, 33, 64]);
+            let n = parts * plen;
+            let warmup = rng.usize_below(5).min(plen);
+            let method2 = rng.chance(2, 3);
+            let maxp = if method2 { 30 } else { 14 };
+            let mut m = BitVec::new();
+            m.push_lsbs(u64::from(method2), 2);
+            m.push_lsbs(order as u64, 4);
+            let mut params = vec![];
+            for part in 0..parts {
+                let p = if rng.chance(1, 3) { rng.usize_below(maxp + 1) } else { rng.usize_below(15.min(maxp + 1)) };
+                params.push(p);
+                m.push_lsbs(p as u64, if method2 { 5 } else { 4 });
+                let s = (part * plen).max(warmup);
+                for _ in s..(part + 1) * plen {
+                    let q = if rng.chance(1, 20) { rng.usize_below(70) } else { rng.usize_below(4) };
+                    m.push_zeros(q);
+                    m.push_lsbs(1, 1);
+                    if p > 0 {
+                        m.push_lsbs(rng.next_u64() & ((1u64 << p) - 1), p);
+                    }
+                }
+            }
+            let mut bytes = m.bytes.clone();
+            bytes.extend_from_slice(&[0u8; 8]);
+            let desc = json!({"foreign": "residual", "method": if method2 { "01 (5-bit parameters)" } else { "00" }, "order": order, "n": n, "warmup": warmup, "params": params.iter().take(8).collect::<Vec<_>>()});
+            let r = catch(|| {
+                let mut p = flacenc::component::parser::residual::<BitErr<'_>>(n, warmup);
+                p((&bytes[..], 0)).ok().map(|(_, x)| x)
+            });
+            match r {
+                Ok(Some(res)) => {
+                    out.count(if method2 { "foreign_rice2_residuals_accepted" } else { "foreign_rice1_residuals_accepted" });
+                    out.distinct.insert(prng::hash_str(&desc.to_string()));
+                    let rp = || rpj(ctx, "foreign", idx, desc.clone());
+                    check_bits(ctx, "Residual(parsed)", &res, out, &rp);
+                }
+                Ok(None) => out.count("foreign_residuals_rejected_by_the_parser"),
+                Err(p) => out.violation(format!("C08|parser-panic|{}", p.site()), p.short(), rpj(ctx, "foreign", idx, desc)),
+            }
+        } else if !bs.is_empty() {
+            let base = &bs[rng.usize_below(bs.len())];
+            let fi = rng.usize_below(base.frames.len());
+            let fr = crate::mon_d::craft_frame(base, fi, rng.chance(2, 3), &mut rng);
+            let desc = json!({"foreign": "frame with re-coded number / blocking bit", "base": base.desc, "frame": fi, "header_hex": fr.iter().take(16).map(|b| format!("{b:02x}")).collect::<String>()});
+            let si = refdec::parse_streaminfo(&base.bytes[8..42]);
+            let Ok(sinfo) = StreamInfo::new(si.rate as usize, si.channels as usize, si.bps as usize) else { return };
+            let r = catch(|| {
+                let mut p = flacenc::component::parser::frame::<ByteErr<'_>>(&sinfo, true);
+                p(&fr[..]).ok().map(|(_, x)| x)
+            });
+            match r {
+                Ok(Some(f)) => {
+                    out.count("foreign_frames_accepted");
+                    out.distinct.insert(prng::hash_bytes(&fr));
+                    let rp = || rpj(ctx, "foreign", idx, desc.clone());
+                    check_bits(ctx, "Frame(parsed)", &f, out, &rp);
+                    check_bits(ctx, "FrameHeader(parsed)", f.header(), out, &rp);
+                }
+                Ok(None) => out.count("foreign_frames_rejected_by_the_parser"),
+                Err(p) => out.violation(format!("C08|parser-panic|{}", p.site()), p.short(), rpj(ctx, "foreign", idx, desc)),
+            }
+        }
+    });
     // (e) metadata blocks
     run_cases(ctx, "metadata", 300, &mut out, |idx, out| {
         let mut rng = Rng::for_case(ctx.seed, "C08.metadata", idx);
@@ -628,12 +707,19 @@ fn run_history(ops: &[Op]) -> Result<(), (usize, String)> {
         let mut m = BitVec::new();
         let mut s8 = MemSink::<u8>::new();
         let mut s64 = MemSink::<u64>::new();
+        // a user-defined sink with only the required methods: the trait's default
+        // write_zeros / write_twoc / write_bytes_aligned run on the same history
+        let mut su = UserSink::new();
         for (i, op) in ops.iter().enumerate() {
             apply_model(&mut m, op);
             apply_sink(&mut s8, op).unwrap();
             apply_sink(&mut s64, op).unwrap();
+            apply_sink(&mut su, op).unwrap();
             if let Some(d) = compare_sinks(&m, &s8, &s64) {
                 return Err((i, d));
+            }
+            if su.bits.len != m.len || su.bits.bytes != m.bytes {
+                return Err((i, format!("a user-defined sink (default trait methods) holds {} bits, the model {} (or different bits)", su.bits.len, m.len)));
             }
         }
         // into_inner
@@ -858,6 +944,25 @@ fn fault_sweep_prefilled<T: BitRepr>(_ctx: &Ctx, what: &str, c: &T, max_dense: u
             Ok((Err(e), _)) => out.violation(format!("C12|wrong-error-kind|{what}"), format!("fault at op {k} surfaced as {e:?}"), rp(k)),
             Ok((Ok(()), _)) => out.violation(format!("C12|error-swallowed|{what}"), format!("fault at op {k} of {n}: write returned Ok"), rp(k)),
             Err(p) => out.violation(format!("C12|panic|{what}|{}", p.site()), format!("fault at op {k} of {n}: {}", p.short()), rp(k)),
+        }
+        // the same fault through a sink whose error type is zero-sized (every 3rd position): the
+        // error must still come back (as Err) and the accepted bits must still be a prefix
+        if k % 3 == 0 || k + 1 == n {
+            let rz = catch(|| {
+                let mut s = crate::bitmodel::UnitErrSink(new_sink(Some(k)));
+                let r = c.write(&mut s);
+                (r.is_err(), s.0)
+            });
+            out.count("faults_through_a_zero_sized_error_type");
+            match rz {
+                Ok((true, s)) => {
+                    if !s.bits.is_prefix_of(&clean.bits) {
+                        out.violation(format!("C12|not-a-prefix|{what}|unit-error"), format!("unit-error sink failing at op {k}: accepted bits are not a prefix of the fault-free stream"), rp(k));
+                    }
+                }
+                Ok((false, _)) => out.violation(format!("C12|error-swallowed|{what}|unit-error"), format!("a sink with a zero-sized error type failed at op {k} of {n}: write returned Ok"), rp(k)),
+                Err(p) => out.violation(format!("C12|panic|{what}|{}", p.site()), format!("unit-error sink, fault at op {k}: {}", p.short()), rp(k)),
+            }
         }
         // the failure must leave nothing behind: the same component written again on this thread
         // (every 4th fault position, and the last) gives the fault-free bits
